@@ -15,7 +15,7 @@ OPERANDS = [b"k", b"1", b"-1", b"0", b"abc", b"", b"2", b"(1", b"inf", b"NX", b"
 
 
 def command_names():
-    src = open("/repo/handler.go").read()
+    src = open(f"{vlib.REPO}/handler.go").read()
     body = src[src.index("func GetCommand("):]
     body = body[:body.index("\n}\n")]
     return re.findall(r'case "([A-Z]+)":', body)
